@@ -2273,6 +2273,8 @@ func c05ClosureErrRecorded(cl *ssa.Function, call ssa.CallInstruction, handle ss
 
 var c05Mutants = []Mutant{
 	// R5
+	{Name: "memory-exists-by-digest-scan", File: "internal/cas/memory.go", Old: "\t_, exists := m.content.Load(key)\n\treturn exists, nil", New: "\tif _, exists := m.content.Load(key); exists {\n\t\treturn true, nil\n\t}\n\tfound := false\n\tm.content.Range(func(k, _ interface{}) bool {\n\t\tstored := k.(descriptor.Descriptor)\n\t\tfound = stored.Digest == key.Digest && stored.Size == key.Size\n\t\treturn !found\n\t})\n\treturn found, nil", Expect: "C05.R5.visibility-readers|(*~/internal/cas.Memory).Exists|"},
+	{Name: "memory-exists-by-digest-only-key", File: "internal/cas/memory.go", Old: "\t_, exists := m.content.Load(key)\n\treturn exists, nil", New: "\tif _, exists := m.content.Load(key); exists {\n\t\treturn true, nil\n\t}\n\t_, exists := m.content.Load(descriptor.Descriptor{Digest: key.Digest, Size: key.Size})\n\treturn exists, nil", Expect: "C05.R5.visibility-readers|(*~/internal/cas.Memory).Exists|"},
 	{Name: "oci-fetch-any-open-error-is-not-found", File: "content/oci/readonlystorage.go", Old: "\t\tif errors.Is(err, fs.ErrNotExist) {\n\t\t\treturn nil, fmt.Errorf(\"%s: %s: %w\", target.Digest, target.MediaType, errdef.ErrNotFound)\n\t\t}\n\t\treturn nil, err\n\t}\n\n\treturn fp, nil", New: "\t\tif errors.Is(err, fs.ErrNotExist) || errors.Is(err, fs.ErrPermission) {\n\t\t\treturn nil, fmt.Errorf(\"%s: %s: %w\", target.Digest, target.MediaType, errdef.ErrNotFound)\n\t\t}\n\t\treturn nil, err\n\t}\n\n\treturn fp, nil", Expect: "C05.R5.not-found-only-when-absent|(*~/content/oci.ReadOnlyStorage).Fetch|"},
 	{Name: "oci-exists-false-for-any-stat-error", File: "content/oci/readonlystorage.go", Old: "\t\tif errors.Is(err, fs.ErrNotExist) {\n\t\t\treturn false, nil\n\t\t}\n\t\treturn false, err", New: "\t\treturn false, nil", Expect: "C05.R5.not-found-only-when-absent|(*~/content/oci.ReadOnlyStorage).Exists|"},
 	{Name: "proxy-exists-or-instead-of-and", File: "internal/cas/proxy.go", Old: "\tif err == nil && exists {\n\t\treturn true, nil\n\t}", New: "\tif err == nil || exists {\n\t\treturn true, nil\n\t}", Expect: "C05.R5.visibility-readers|(*~/internal/cas.Proxy).Exists|"},
@@ -2439,8 +2441,12 @@ func c05R5(c *Ctx) {
 						}
 					}
 				case n == "(*sync.Map).Load":
-					okKey := keyOfTarget(args[1]) || digestOfTarget(args[1])
-					published := c05IsFieldAddrOf(args[0], "~/internal/cas.Memory", c05Cur.F("cas.content")) || c05IsFieldAddrOf(args[0], "~/content/file.Store", c05Cur.F("file.digestToPath"))
+					// the key must be the one the publication uses for the same descriptor (R2): the CAS key
+					// descriptor.FromOCI(desc) for cas.Memory, the digest for the file store's digest->path map —
+					// a hit under any weaker key is not evidence that Fetch of this descriptor succeeds
+					okKey := (c05IsFieldAddrOf(args[0], "~/internal/cas.Memory", c05Cur.F("cas.content")) && keyOfTarget(args[1])) ||
+						(c05IsFieldAddrOf(args[0], "~/content/file.Store", c05Cur.F("file.digestToPath")) && digestOfTarget(args[1]))
+					published := okKey
 					if okKey && published {
 						if okv := ResultOf(call, 1); okv != nil {
 							forward[okv] = true
@@ -2508,7 +2514,12 @@ func c05R5(c *Ctx) {
 					continue
 				}
 				positive := false
-				for _, v := range Roots(r.Results[0]) {
+				resVals := Roots(r.Results[0])
+				if cell := cellOf(r.Results[0]); cell != nil && len(closureWriters(cell)) > 0 {
+					// a variable assigned inside a callback (e.g. a scan of the map): its value is whatever the callback decided
+					resVals = []ssa.Value{r.Results[0]}
+				}
+				for _, v := range resVals {
 					v = strip(v)
 					if k, isK := v.(*ssa.Const); isK {
 						if isExists && k.Value != nil && k.Value.String() == "false" {
